@@ -139,4 +139,49 @@ Definition Outcome (s : state) (du : list (Z * list Z)) (s' : state) (key : Z) (
     forall p ch, Located s du key p ch ->
       In ch chs /\ Forall2 (Verdict s du s' key p ch) ks chs.
 
+(* ---- the deck as WRITTEN: a cell card's TRCL moves the cell inside its universe ----------------
+   [LocW] is [LocB] with "p is in the cell" read as "the point pulled back through the cell's
+   TRCLs is in the geometry written on the card" *)
+Inductive LocW (s : state) (du : list (Z * list Z)) : Z -> P -> list Z -> bool -> Prop :=
+| LWLeaf : forall key cl p b,
+    dget key (s_cells s) = Some cl -> c_fill cl = None ->
+    Den s (act_seq (c_trcl cl) p) (c_geom cl) b ->
+    LocW s du key p [key] b
+| LWFill : forall key cl u p c chain b1 b2,
+    dget key (s_cells s) = Some cl -> c_fill cl = Some u -> In c (du_get u du) ->
+    Den s (act_seq (c_trcl cl) p) (c_geom cl) b1 -> LocW s du c (frame cl p) chain b2 ->
+    LocW s du key p (key :: chain) (b1 && b2).
+
+Definition universe_partitionW (s : state) (du : list (Z * list Z)) : Prop :=
+  forall u q c c' cl cl',
+    In c (du_get u du) -> In c' (du_get u du) -> c <> c' ->
+    dget c (s_cells s) = Some cl -> dget c' (s_cells s) = Some cl' ->
+    Den s (act_seq (c_trcl cl) q) (c_geom cl) true ->
+    Den s (act_seq (c_trcl cl') q) (c_geom cl') false.
+
+(* the end of the chain TRCL -> FILL -> inlining: [s] = the table of the cell cards, [s'] = the
+   final table *)
+Definition RepresentsW (s : state) (du : list (Z * list Z)) (s' : state) (key k : Z) (ch : list Z)
+  : Prop :=
+  exists ncl lcl,
+    dget k (s_cells s') = Some ncl /\
+    dget (last ch 0) (s_cells s) = Some lcl /\
+    c_fill ncl = None /\
+    c_orig ncl = prov ch /\
+    c_mat ncl = c_mat lcl /\ c_rho ncl = c_rho lcl /\
+    (forall p b, LocW s du key p ch b -> Den s' p (c_geom ncl) b) /\
+    (forall p, Den s' p (c_geom ncl) true -> Den s' p (TRef key) true).
+
+Definition VerdictW (s : state) (du : list (Z * list Z)) (s' : state) (key : Z) (p : P)
+           (ch : list Z) (k : Z) (ch' : list Z) : Prop :=
+  (ch' = ch -> Den s' p (TRef k) true) /\
+  (universe_partitionW s du -> ch' <> ch ->
+   forall b', LocW s du key p ch' b' -> Den s' p (TRef k) false).
+
+Definition OutcomeW (s : state) (du : list (Z * list Z)) (s' : state) (key : Z) (ks : list Z) : Prop :=
+  exists chs,
+    Paths s du key chs /\ Forall2 (RepresentsW s du s' key) ks chs /\
+    forall p ch, LocW s du key p ch true ->
+      In ch chs /\ Forall2 (VerdictW s du s' key p ch) ks chs.
+
 End Spec.
